@@ -53,7 +53,8 @@ CONSTANTS MaxHosts,     \* hosts are 1..n, n <= MaxHosts
           Lens,         \* ring lengths generated (subset of 1..MaxRing)
           MaxAlters,    \* how many times the keyspace's replication settings are altered afterwards
           MaxMoves,     \* how many times a host changes datacenter/rack (same address, same tokens) afterwards
-          MaxOps        \* alterations + moves together
+          MaxOps,       \* alterations + moves together
+          ZeroStyles    \* how an NTS datacenter with rf 0 is written: subset of {"omitted", "explicit"}
 
 Min(a, b) == IF a < b THEN a ELSE b
 
@@ -187,9 +188,14 @@ NewToken(d, r) ==
     /\ rack' = Append(rack, r)
     /\ UNCHANGED <<len, phase, strat, expected, byKey, hist, dc0, rack0, log>>
 
+\* An NTS datacenter with replication factor 0 holds no replica, whether the options leave it out or list it
+\* with '0' (zero = "explicit": {'dc1': '2', 'dc2': '0'}) - also when that datacenter has hosts and tokens.
 Strategies ==
     {[kind |-> "Simple", rf |-> n] : n \in 1..MaxRF}
-      \cup {[kind |-> "NTS", rfs |-> f] : f \in {g \in [1..MaxDCs -> 0..MaxRF] : \E d \in 1..MaxDCs : g[d] > 0}}
+      \cup ({[kind |-> "NTS", rfs |-> f, zero |-> z] :
+                f \in {g \in [1..MaxDCs -> 0..MaxRF] : \E d \in 1..MaxDCs : g[d] > 0},
+                z \in ZeroStyles}
+            \ {[kind |-> "NTS", rfs |-> f, zero |-> "explicit"] : f \in [1..MaxDCs -> 1..MaxRF]})   \* nothing to write
 
 ReplicasIn(s, i, dcs, racks) ==
     IF s.kind = "Simple" THEN SimpleReplicas(ring, i, s.rf)
